@@ -205,3 +205,39 @@ Proof.
   destruct (get_first_range pint hd _) as [[s e]|]; repeat split.
 Qed.
 End Serve.
+
+(* ------------------------------------------------------------------ *)
+(* presentation headers (static_file l.86-98)                          *)
+(* ------------------------------------------------------------------ *)
+Lemma basename_aux_nosep : forall p acc,
+  contains_char N.eqb SEP acc = false -> contains_char N.eqb SEP (basename_aux p acc) = false.
+Proof.
+  induction p as [|c p IH]; intros acc Ha; cbn [basename_aux]; [exact Ha|].
+  destruct (N.eqb c SEP) eqn:E; [apply IH; reflexivity|].
+  apply IH. unfold contains_char in *. rewrite existsb_app, Ha. cbn [existsb]. now rewrite E.
+Qed.
+
+(* whatever is accepted as Content-Encoding / Content-Type / Content-Disposition
+   is free of CR, LF and NUL (otherwise the call raises ValueError), and the
+   file name offered for download is a base name: it contains no '/' *)
+Lemma present_lemma :
+  forall filename guess mimetype charset download e t d,
+    sf_present filename guess mimetype charset download = Some (e, t, d) ->
+    (forall v, e = Some v \/ t = Some v \/ d = Some v -> has_ctl v = false)
+    /\ match download with
+       | DNo => d = None
+       | DTrue => d = Some (s_attach ++ basename filename ++ [34%N])
+                  /\ contains_char N.eqb SEP (basename filename) = false
+       | DName n => d = Some (s_attach ++ basename n ++ [34%N])
+                    /\ contains_char N.eqb SEP (basename n) = false
+       end.
+Proof.
+  intros filename guess mimetype charset download e t d. unfold sf_present.
+  destruct (match mimetype with MAuto => _ | MNone => _ | MGiven m => _ end) as [mt enc].
+  cbv zeta.
+  match goal with |- (if ?c then _ else _) = _ -> _ => destruct c eqn:C end; [discriminate|].
+  intros [= <- <- <-]. apply orb_false_iff in C as [C Cd]. apply orb_false_iff in C as [Ce Ct].
+  split.
+  - intros v [->|[H|H]]; [exact Ce| rewrite H in Ct; exact Ct | rewrite H in Cd; exact Cd].
+  - destruct download; [reflexivity| |]; (split; [reflexivity|apply basename_aux_nosep; reflexivity]).
+Qed.
